@@ -7,6 +7,8 @@ opened in a seeded random order under `aloop.Sched`, so the interleaving of the 
 Model: HailVerif.Copy (partPlan, copySpec).
 """
 import asyncio
+import contextvars
+import errno
 import importlib.util
 import json
 import os
@@ -17,6 +19,20 @@ import tempfile
 from .. import aloop, loader
 from ..framework import MachineryError, Prop
 from .c23 import InlineExecutor
+
+IN_RETRY = contextvars.ContextVar('verif_c22_in_retry', default=False)
+FAULT_KINDS = ['open', 'open_from', 'create', 'create_part', 'read', 'readexactly', 'write', 'close', 'listfiles', 'listing_next',
+               'entry_status']
+FAULT_EXCS = ['etimedout', 'timeout', 'ehostunreach']
+
+
+def make_fault(name):
+    """errors `hailtop.utils.is_transient_error` classifies as retryable"""
+    if name == 'timeout':
+        return asyncio.TimeoutError()
+    code = errno.ETIMEDOUT if name == 'etimedout' else errno.EHOSTUNREACH
+    return OSError(code, os.strerror(code))
+
 
 DOCUMENTED = {'FileNotFoundError', 'IsADirectoryError', 'NotADirectoryError', 'FileAndDirectoryError'}
 
@@ -150,7 +166,11 @@ def ref_copy(files, dirs, xfers):
 # ------------------------------------------------------------------------------------------------------------------
 
 
-def make_gated_fs(LocalAsyncFS, pool, gate, rec):
+def make_gated_fs(LocalAsyncFS, pool, gate0, rec, fault=lambda kind: None):
+    async def gate(kind):
+        await gate0(kind)
+        fault(kind)          # a transient fault fires *instead of* the operation, after the task was scheduled
+
     class GatedReadable:
         def __init__(self, inner):
             self._i = inner
@@ -184,8 +204,10 @@ def make_gated_fs(LocalAsyncFS, pool, gate, rec):
             return self
 
         async def __aexit__(self, *a):
-            await gate('close')
-            await self._i.wait_closed()
+            try:
+                await gate('close')
+            finally:
+                await self._i.wait_closed()
 
         def __getattr__(self, k):
             return getattr(self._i, k)
@@ -205,6 +227,19 @@ def make_gated_fs(LocalAsyncFS, pool, gate, rec):
 
         async def __aexit__(self, *a):
             return await self._i.__aexit__(*a)
+
+    class GatedEntry:
+        """a FileListEntry whose status() (a stat on the local FS) is a scheduling point and may fail transiently"""
+
+        def __init__(self, inner):
+            self._i = inner
+
+        async def status(self):
+            await gate('entry_status')
+            return await self._i.status()
+
+        def __getattr__(self, k):
+            return getattr(self._i, k)
 
     class GatedLocalFS(LocalAsyncFS):
         async def open(self, url):
@@ -235,7 +270,13 @@ def make_gated_fs(LocalAsyncFS, pool, gate, rec):
 
         async def listfiles(self, url, recursive=False, exclude_trailing_slash_files=True):
             await gate('listfiles')
-            return await super().listfiles(url, recursive, exclude_trailing_slash_files)
+            it = await super().listfiles(url, recursive, exclude_trailing_slash_files)
+
+            async def walk():
+                async for e in it:
+                    await gate('listing_next')
+                    yield GatedEntry(e)
+            return walk()
 
         async def makedirs(self, url, exist_ok=False):
             await gate('makedirs')
@@ -265,13 +306,18 @@ class C22(Prop):
                   '(their outcome depends on the schedule); real thread-pool timing and OS-level failures are not exhibited.')
     budget = {'quick': 900, 'thorough': 12000}
     search_budget = {'quick': 1500, 'thorough': 12000}
-    rule = ('case kinds: plan = one file of size around k*part +-1 copied with part_size 3..7, BUFFER_SIZE 2..4 (compared: create_part and '
+    rule = ('45% of the generated cases inject 1-4 transient faults (OSError ETIMEDOUT / EHOSTUNREACH, asyncio.TimeoutError: retryable '
+            'for hailtop.utils.is_transient_error) into the n-th open / open_from / create / create_part / read / readexactly / write / '
+            'close / listfiles / listing step / entry stat made inside a retry_transient_errors region of the copier; a copy that returns '
+            'normally must still give exactly the documented result; case kinds: plan = one file of size around k*part +-1 copied with part_size 3..7, BUFFER_SIZE 2..4 (compared: create_part and '
             'open_from calls); copy = tree of <= 6 files with 1-2 transfers (src file/dir/missing/trailing slash/list, dest '
             'missing/file/dir/nested/trailing slash, three treat_dest_as modes), sizes around part boundaries, seeded gate order; the 324 '
             'configurations of the repo table copy_test_specs.py are run on every run; compared: resulting tree (paths, dirs, content '
             'identity) or error class; cases with overlapping sources/destinations or two different possible errors are not generated; '
             'non-trivial = at least one file copied; distinct by full case')
     trusted = ['harness/aloop.py deterministic event loop; InlineExecutor instead of the thread pool',
+               'copier.retry_transient_errors is wrapped (same function, plus a context flag) so that faults are only injected where the '
+               'copier retries; back-off sleeps run on the virtual clock',
                'GatedLocalFS: subclass of the real LocalAsyncFS whose coroutines first wait on a harness gate (no other change)',
                'the Linux file system in the scratch directory (ENOTDIR / EISDIR / ENOENT behaviour of open(2))',
                'reference destination rules in harness/props/c22.py, cross-checked against the repo table copy_test_specs.py (324 rows)']
@@ -285,6 +331,10 @@ class C22(Prop):
         import hailtop.aiotools.local_fs as lfs
         import hailtop.aiotools.router_fs as rfs
         self.copier, self.lfs, self.rfs = copier, lfs, rfs
+        self._real_retry = copier.retry_transient_errors
+        import logging
+        logging.getLogger('hailtop.utils').setLevel(logging.ERROR)      # 'we have seen N transient errors' warnings
+        self.fault_stats = {}
         path = os.path.join(repo, 'hail', 'python', 'test', 'hailtop', 'inter_cloud', 'copy_test_specs.py')
         spec = importlib.util.spec_from_file_location('verif_c22_copy_test_specs', path)
         mod = importlib.util.module_from_spec(spec)
@@ -456,13 +506,28 @@ class C22(Prop):
         made = 0
         while made < n:
             if rng.random() < 0.15:
-                yield self._plan_case(rng)
+                yield self._with_faults(rng, self._plan_case(rng))
                 made += 1
                 continue
             c = self._random_copy_case(rng)
             if self._usable(c):
                 made += 1
-                yield c
+                yield self._with_faults(rng, c)
+
+    def extra_coverage(self):
+        return {'transient_faults': dict(self.fault_stats)}
+
+    def _with_faults(self, rng, c):
+        if rng.random() < 0.45:
+            listing = ['entry_status', 'entry_status', 'listing_next', 'listfiles']
+            c['faults'] = [[rng.choice(listing if rng.random() < 0.4 else FAULT_KINDS), rng.choice([1, 1, 2, 3]), rng.choice(FAULT_EXCS)]
+                           for _ in range(rng.choice([1, 2, 2, 3]))]
+            # the same call failing twice in a row: retried twice
+            if rng.random() < 0.3:
+                k, n, e = c['faults'][0]
+                c['faults'].append([k, n + 1, e])
+            c['faults'] = [list(x) for x in sorted({tuple(f) for f in c['faults']})]
+        return c
 
     # ------------------------------------------------------------------------------------------ model side
     def model_lines(self, c):
@@ -508,8 +573,32 @@ class C22(Prop):
             async def gate(what):
                 counter[0] += 1
                 await sched.gate((counter[0], what))
+            # transient faults: [kind, n, exception] = the n-th call of that kind made *inside a retry_transient_errors region*
+            # of the copier raises a retryable error instead of doing its work
+            faults = {(k, n): e for k, n, e in c.get('faults', [])}
+            seen = {}
+
+            def fault(kind):
+                if not IN_RETRY.get():
+                    return
+                seen[kind] = seen.get(kind, 0) + 1
+                e = faults.get((kind, seen[kind]))
+                if e is not None:
+                    fired.append((kind, seen[kind], e))
+                    raise make_fault(e)
+            fired = []
+            real_retry = self._real_retry
+
+            async def traced_retry(f, *a, **k):
+                tok = IN_RETRY.set(True)
+                try:
+                    return await real_retry(f, *a, **k)
+                finally:
+                    IN_RETRY.reset(tok)
+            copier.retry_transient_errors = traced_retry
+            random.seed(c['sched'])          # the jitter of the retry back-off
             router = rfs.RouterAsyncFS(local_kwargs={'thread_pool': InlineExecutor()})
-            router._local_fs = make_gated_fs(lfs.LocalAsyncFS, InlineExecutor(), gate, rec)
+            router._local_fs = make_gated_fs(lfs.LocalAsyncFS, InlineExecutor(), gate, rec, fault)
 
             def absolute(p):
                 return os.path.join(scratch, p.rstrip('/')) + ('/' if p.endswith('/') else '')
@@ -527,9 +616,13 @@ class C22(Prop):
                     break
                 pending = sorted(k for k, f in sched.gates.items() if not f.done())
                 if not pending:
-                    sched.advance(1.0)
-                    if not task.done() and not any(not f.done() for f in sched.gates.values()):
-                        raise MachineryError('copier is stuck without a pending gate')
+                    nt = sched.loop.next_timer()
+                    if nt is None:
+                        sched.settle()
+                        if not task.done() and not any(not f.done() for f in sched.gates.values()) and sched.loop.next_timer() is None:
+                            raise MachineryError('copier is stuck without a pending gate or timer')
+                        continue
+                    sched.advance(max(nt - sched.loop.time(), 0.0) + 1e-6)      # the back-off sleep of a retry
                     continue
                 sched.open(rng.choice(pending))
             else:
@@ -552,8 +645,10 @@ class C22(Prop):
                     tree[os.path.normpath(os.path.join(rel, f))] = tokens.get(b, ['?', b.hex()])
             res['tree'] = tree
             res['rec'] = rec
+            res['fired'] = fired
             return res
         finally:
+            copier.retry_transient_errors = self._real_retry
             copier.Copier.BUFFER_SIZE = saved_buf
             if saved_part is None:
                 try:
@@ -597,9 +692,16 @@ class C22(Prop):
 
     def impl(self, c):
         r = self._run(c)
+        if c.get('faults'):
+            st = self.fault_stats
+            st['cases_with_faults'] = st.get('cases_with_faults', 0) + 1
+            st['cases_where_a_fault_fired'] = st.get('cases_where_a_fault_fired', 0) + (1 if r.get('fired') else 0)
+            for k, _, _ in r.get('fired', []):
+                st['fired:' + k] = st.get('fired:' + k, 0) + 1
         if c['kind'] == 'plan':
-            parts = sorted((e[1], e[2], e[3]) for e in r['rec'] if e[0] == 'part')
-            reads = sorted((e[1], e[2]) for e in r['rec'] if e[0] == 'read')
+            # a retried part is created and read again: the plan is the *set* of create_part / open_from calls
+            parts = sorted({(e[1], e[2], e[3]) for e in r['rec'] if e[0] == 'part'})
+            reads = sorted({(e[1], e[2]) for e in r['rec'] if e[0] == 'read'})
             good = r['status'] == 'ok' and r['tree'].get('d/f') == norm_tok([7, c['size']])
             if not parts and not reads:
                 line = 'single'
@@ -691,6 +793,8 @@ class C22(Prop):
                     f"rem={'0' if c['size'] % c['part'] == 0 else 'nonzero'}"]
             return (json.dumps(c, sort_keys=True) if line != 'single' and n else None, tags)
         tags = ['kind=copy', 'res=' + (line.split(' ')[1] if line.startswith('err ') else 'ok'), f"xfers={len(c['xfers'])}"]
+        if c.get('faults'):
+            tags.append('with-transient-faults')
         multipart = any(t[1] > c['part'] for t in c['files'].values())
         for x in c['xfers']:
             tags.append('mode=' + x['mode'])
@@ -708,6 +812,10 @@ class C22(Prop):
 
     def shrink(self, c, fails):
         cur = json.loads(json.dumps(c))
+        for i in range(len(cur.get('faults', [])) - 1, -1, -1):
+            cand = {**cur, 'faults': cur['faults'][:i] + cur['faults'][i + 1:]}
+            if fails(cand):
+                cur = cand
         if cur['kind'] == 'plan':
             changed = True
             while changed:
